@@ -1,4 +1,838 @@
-//! C24: not built yet.
-use crate::util::Ctx;
+//! C24 — introspection agrees with the reference implementation.
+//!
+//! The reference implementation (graphql-js) is not available in this sandbox.  The oracle is an
+//! introspection function written here from the GraphQL specification §4 ("Introspection") and the shape of
+//! graphql-js 16's `getIntrospectionQuery` (descriptions, specifiedByUrl, directiveIsRepeatable,
+//! schemaDescription, inputValueDeprecation all on): it computes the expected response JSON directly from the
+//! generator's own schema description — it never calls apollo's resolvers, executor or `Schema`.
+//! The real code is `introspection::partial_execute` on the SDL text of the same description.
+//! Allowed differences (normalised away on both sides): order of `types` and `directives`, field order of the
+//! built-in introspection types; additionally `possibleTypes` is compared as a set (the spec does not order it)
+//! and the descriptions of built-in types/directives are not compared (no reference text available).
+//!
+//! Streams: `c24.typeref` (type reference ↦ kind/name chain), `c24.filter` (deprecation filtering),
+//! `c24.possible` (possibleTypes), `c24.skiproots` (concrete root fields are skipped).
+use crate::p26::{inner_name, ty};
+use crate::p28::{toks, Lit, Ty, JV};
+use crate::util::*;
+use apollo_compiler::{ExecutableDocument, Schema};
+use serde_json_bytes::Value as SJ;
 
-pub fn run(_ctx: &mut Ctx) {}
+// ───────────────────────── schema description ─────────────────────────
+
+/// a description: its value and how it is written in the SDL
+#[derive(Clone, Debug)]
+pub struct Desc { pub value: String, pub block: bool }
+
+/// `None`: not deprecated; `Some(None)`: `@deprecated`; `Some(Some(r))`: `@deprecated(reason: "r")`
+pub type Dep = Option<Option<String>>;
+
+#[derive(Clone, Debug)]
+pub struct InputVal { pub name: String, pub desc: Option<Desc>, pub ty: Ty, pub default: Option<Lit>, pub dep: Dep }
+#[derive(Clone, Debug)]
+pub struct Field { pub name: String, pub desc: Option<Desc>, pub args: Vec<InputVal>, pub ty: Ty, pub dep: Dep }
+#[derive(Clone, Debug)]
+pub struct EnumVal { pub name: String, pub desc: Option<Desc>, pub dep: Dep }
+#[derive(Clone, Debug)]
+pub enum Kind {
+    Scalar { specified_by: Option<String> },
+    Object { implements: Vec<String>, fields: Vec<Field> },
+    Interface { implements: Vec<String>, fields: Vec<Field> },
+    Union { members: Vec<String> },
+    Enum { values: Vec<EnumVal> },
+    Input { fields: Vec<InputVal> },
+}
+#[derive(Clone, Debug)]
+pub struct TypeDef { pub name: String, pub desc: Option<Desc>, pub kind: Kind, pub builtin: bool, /// how many trailing fields are written in an `extend` block
+    pub ext_split: usize }
+#[derive(Clone, Debug)]
+pub struct DirectiveDef { pub name: String, pub desc: Option<Desc>, pub args: Vec<InputVal>, pub repeatable: bool, pub locations: Vec<String>, pub builtin: bool }
+#[derive(Clone, Debug)]
+pub struct SchemaG {
+    pub desc: Option<Desc>,
+    pub query: String,
+    pub mutation: Option<String>,
+    pub subscription: Option<String>,
+    pub explicit: bool,
+    pub types: Vec<TypeDef>,
+    pub directives: Vec<DirectiveDef>,
+}
+
+fn esc(s: &str) -> String {
+    let mut o = String::new();
+    for c in s.chars() {
+        match c {
+            '"' => o.push_str("\\\""), '\\' => o.push_str("\\\\"), '\n' => o.push_str("\\n"), '\t' => o.push_str("\\t"), '\r' => o.push_str("\\r"),
+            '\u{8}' => o.push_str("\\b"), '\u{c}' => o.push_str("\\f"),
+            c if (c as u32) < 0x20 || c as u32 == 0x7f => o.push_str(&format!("\\u{:04X}", c as u32)),
+            c => o.push(c),
+        }
+    }
+    o
+}
+
+fn desc_sdl(d: &Option<Desc>, indent: &str) -> String {
+    match d {
+        None => String::new(),
+        Some(Desc { value, block: false }) => format!("{indent}\"{}\"\n", esc(value)),
+        Some(Desc { value, block: true }) => {
+            let mut s = format!("{indent}\"\"\"\n");
+            for l in value.split('\n') { s.push_str(&format!("{indent}{l}\n")); }
+            s.push_str(&format!("{indent}\"\"\"\n"));
+            s
+        }
+    }
+}
+
+fn dep_sdl(d: &Dep) -> String {
+    match d { None => String::new(), Some(None) => " @deprecated".into(), Some(Some(r)) => format!(" @deprecated(reason: \"{}\")", esc(r)) }
+}
+
+/// how a constant is printed in the GraphQL language (graphql-js `print`): `[1, 2]`, `{a: 1}`, JSON-like strings
+pub fn print_lit(l: &Lit) -> String {
+    match l {
+        Lit::Null => "null".into(), Lit::Bool(b) => b.to_string(), Lit::Int(i) => i.to_string(), Lit::Float(t) => t.clone(),
+        Lit::Str(s) => format!("\"{}\"", esc(s)), Lit::Enum(e) => e.clone(),
+        Lit::List(xs) => format!("[{}]", xs.iter().map(print_lit).collect::<Vec<_>>().join(", ")),
+        Lit::Obj(kvs) => format!("{{{}}}", kvs.iter().map(|(k, v)| format!("{k}: {}", print_lit(v))).collect::<Vec<_>>().join(", ")),
+    }
+}
+
+fn inputval_sdl(v: &InputVal, indent: &str, inline: bool) -> String {
+    let d = if inline { match &v.desc { Some(Desc { value, .. }) => format!("\"{}\" ", esc(value)), None => String::new() } } else { desc_sdl(&v.desc, indent) };
+    let def = v.default.as_ref().map(|d| format!(" = {}", print_lit(d))).unwrap_or_default();
+    if inline { format!("{d}{}: {}{def}{}", v.name, v.ty.print(), dep_sdl(&v.dep)) } else { format!("{d}{indent}{}: {}{def}{}\n", v.name, v.ty.print(), dep_sdl(&v.dep)) }
+}
+
+fn fields_sdl(fs: &[Field]) -> String {
+    let mut s = String::new();
+    for f in fs {
+        s.push_str(&desc_sdl(&f.desc, "  "));
+        let args = if f.args.is_empty() { String::new() } else { format!("({})", f.args.iter().map(|a| inputval_sdl(a, "", true)).collect::<Vec<_>>().join(", ")) };
+        s.push_str(&format!("  {}{args}: {}{}\n", f.name, f.ty.print(), dep_sdl(&f.dep)));
+    }
+    s
+}
+
+impl SchemaG {
+    pub fn sdl(&self) -> String {
+        let mut s = String::new();
+        if self.explicit || self.desc.is_some() {
+            s.push_str(&desc_sdl(&self.desc, ""));
+            s.push_str(&format!("schema {{ query: {}", self.query));
+            if let Some(m) = &self.mutation { s.push_str(&format!(" mutation: {m}")); }
+            if let Some(m) = &self.subscription { s.push_str(&format!(" subscription: {m}")); }
+            s.push_str(" }\n");
+        }
+        for d in self.directives.iter().filter(|d| !d.builtin) {
+            s.push_str(&desc_sdl(&d.desc, ""));
+            let args = if d.args.is_empty() { String::new() } else { format!("({})", d.args.iter().map(|a| inputval_sdl(a, "", true)).collect::<Vec<_>>().join(", ")) };
+            s.push_str(&format!("directive @{}{args}{} on {}\n", d.name, if d.repeatable { " repeatable" } else { "" }, d.locations.join(" | ")));
+        }
+        let mut exts = String::new();
+        for t in self.types.iter().filter(|t| !t.builtin) {
+            s.push_str(&desc_sdl(&t.desc, ""));
+            let imp = |i: &Vec<String>| if i.is_empty() { String::new() } else { format!(" implements {}", i.join(" & ")) };
+            match &t.kind {
+                Kind::Scalar { specified_by } => s.push_str(&format!("scalar {}{}\n", t.name, specified_by.as_ref().map(|u| format!(" @specifiedBy(url: \"{}\")", esc(u))).unwrap_or_default())),
+                Kind::Object { implements, fields } | Kind::Interface { implements, fields } => {
+                    let kw = if matches!(t.kind, Kind::Object { .. }) { "type" } else { "interface" };
+                    let cut = fields.len() - t.ext_split.min(fields.len().saturating_sub(1));
+                    s.push_str(&format!("{kw} {}{} {{\n{}}}\n", t.name, imp(implements), fields_sdl(&fields[..cut])));
+                    if cut < fields.len() { exts.push_str(&format!("extend {kw} {} {{\n{}}}\n", t.name, fields_sdl(&fields[cut..]))); }
+                }
+                Kind::Union { members } => s.push_str(&format!("union {} = {}\n", t.name, members.join(" | "))),
+                Kind::Enum { values } => {
+                    let cut = values.len() - t.ext_split.min(values.len().saturating_sub(1));
+                    let vs = |vs: &[EnumVal]| vs.iter().map(|v| format!("{}  {}{}\n", desc_sdl(&v.desc, "  "), v.name, dep_sdl(&v.dep))).collect::<String>();
+                    s.push_str(&format!("enum {} {{\n{}}}\n", t.name, vs(&values[..cut])));
+                    if cut < values.len() { exts.push_str(&format!("extend enum {} {{\n{}}}\n", t.name, vs(&values[cut..]))); }
+                }
+                Kind::Input { fields } => {
+                    let cut = fields.len() - t.ext_split.min(fields.len().saturating_sub(1));
+                    let fs = |fs: &[InputVal]| fs.iter().map(|f| inputval_sdl(f, "  ", false)).collect::<String>();
+                    s.push_str(&format!("input {} {{\n{}}}\n", t.name, fs(&fields[..cut])));
+                    if cut < fields.len() { exts.push_str(&format!("extend input {} {{\n{}}}\n", t.name, fs(&fields[cut..]))); }
+                }
+            }
+        }
+        s.push_str(&exts);
+        s
+    }
+    fn get(&self, n: &str) -> Option<&TypeDef> { self.types.iter().find(|t| t.name == n) }
+}
+
+// ───────────────────────── the introspection schema, from the specification §4.2 ─────────────────────────
+
+fn iv(name: &str, t: &str, default: Option<Lit>) -> InputVal { InputVal { name: name.into(), desc: None, ty: ty(t), default, dep: None } }
+fn fl(name: &str, t: &str) -> Field { Field { name: name.into(), desc: None, args: vec![], ty: ty(t), dep: None } }
+fn fl_dep(name: &str, t: &str) -> Field { Field { name: name.into(), desc: None, args: vec![iv("includeDeprecated", "Boolean", Some(Lit::Bool(false)))], ty: ty(t), dep: None } }
+fn obj(name: &str, fields: Vec<Field>) -> TypeDef { TypeDef { name: name.into(), desc: None, kind: Kind::Object { implements: vec![], fields }, builtin: true, ext_split: 0 } }
+fn en(name: &str, vals: &[&str]) -> TypeDef { TypeDef { name: name.into(), desc: None, kind: Kind::Enum { values: vals.iter().map(|v| EnumVal { name: v.to_string(), desc: None, dep: None }).collect() }, builtin: true, ext_split: 0 } }
+
+pub fn builtin_types() -> Vec<TypeDef> {
+    vec![
+        obj("__Schema", vec![fl("description", "String"), fl("types", "[__Type!]!"), fl("queryType", "__Type!"), fl("mutationType", "__Type"), fl("subscriptionType", "__Type"), fl("directives", "[__Directive!]!")]),
+        obj("__Type", vec![fl("kind", "__TypeKind!"), fl("name", "String"), fl("description", "String"), fl_dep("fields", "[__Field!]"), fl("interfaces", "[__Type!]"), fl("possibleTypes", "[__Type!]"),
+            fl_dep("enumValues", "[__EnumValue!]"), fl_dep("inputFields", "[__InputValue!]"), fl("ofType", "__Type"), fl("specifiedByURL", "String")]),
+        en("__TypeKind", &["SCALAR", "OBJECT", "INTERFACE", "UNION", "ENUM", "INPUT_OBJECT", "LIST", "NON_NULL"]),
+        obj("__Field", vec![fl("name", "String!"), fl("description", "String"), fl_dep("args", "[__InputValue!]!"), fl("type", "__Type!"), fl("isDeprecated", "Boolean!"), fl("deprecationReason", "String")]),
+        obj("__InputValue", vec![fl("name", "String!"), fl("description", "String"), fl("type", "__Type!"), fl("defaultValue", "String"), fl("isDeprecated", "Boolean!"), fl("deprecationReason", "String")]),
+        obj("__EnumValue", vec![fl("name", "String!"), fl("description", "String"), fl("isDeprecated", "Boolean!"), fl("deprecationReason", "String")]),
+        obj("__Directive", vec![fl("name", "String!"), fl("description", "String"), fl("locations", "[__DirectiveLocation!]!"), fl_dep("args", "[__InputValue!]!"), fl("isRepeatable", "Boolean!")]),
+        en("__DirectiveLocation", &["QUERY", "MUTATION", "SUBSCRIPTION", "FIELD", "FRAGMENT_DEFINITION", "FRAGMENT_SPREAD", "INLINE_FRAGMENT", "VARIABLE_DEFINITION",
+            "SCHEMA", "SCALAR", "OBJECT", "FIELD_DEFINITION", "ARGUMENT_DEFINITION", "INTERFACE", "UNION", "ENUM", "ENUM_VALUE", "INPUT_OBJECT", "INPUT_FIELD_DEFINITION"]),
+    ]
+}
+
+pub fn builtin_directives() -> Vec<DirectiveDef> {
+    let d = |name: &str, args: Vec<InputVal>, locs: &[&str]| DirectiveDef { name: name.into(), desc: None, args, repeatable: false, locations: locs.iter().map(|s| s.to_string()).collect(), builtin: true };
+    vec![
+        d("skip", vec![iv("if", "Boolean!", None)], &["FIELD", "FRAGMENT_SPREAD", "INLINE_FRAGMENT"]),
+        d("include", vec![iv("if", "Boolean!", None)], &["FIELD", "FRAGMENT_SPREAD", "INLINE_FRAGMENT"]),
+        d("deprecated", vec![iv("reason", "String", Some(Lit::Str("No longer supported".into())))], &["FIELD_DEFINITION", "ARGUMENT_DEFINITION", "INPUT_FIELD_DEFINITION", "ENUM_VALUE"]),
+        d("specifiedBy", vec![iv("url", "String!", None)], &["SCALAR"]),
+    ]
+}
+
+const BUILTIN_SCALARS: [&str; 5] = ["Int", "Float", "String", "Boolean", "ID"];
+
+/// the generator's schema completed with what every schema contains: introspection types, built-in directives,
+/// and the built-in scalars that are referenced
+pub fn complete(user: &SchemaG) -> SchemaG {
+    let mut s = user.clone();
+    s.types.extend(builtin_types());
+    let mut dirs = builtin_directives();
+    dirs.extend(s.directives.iter().cloned());
+    s.directives = dirs;
+    let mut used: Vec<String> = vec![];
+    let mut note = |t: &Ty| { let n = inner_name(t).to_string(); if BUILTIN_SCALARS.contains(&n.as_str()) && !used.contains(&n) { used.push(n); } };
+    for t in &s.types {
+        match &t.kind {
+            Kind::Object { fields, .. } | Kind::Interface { fields, .. } => for f in fields { note(&f.ty); for a in &f.args { note(&a.ty); } },
+            Kind::Input { fields } => for f in fields { note(&f.ty); },
+            _ => {}
+        }
+    }
+    for d in &s.directives { for a in &d.args { note(&a.ty); } }
+    for n in used { s.types.push(TypeDef { name: n, desc: None, kind: Kind::Scalar { specified_by: None }, builtin: true, ext_split: 0 }); }
+    s
+}
+
+// ───────────────────────── the reference introspection (spec §4) ─────────────────────────
+
+fn o(kvs: Vec<(&str, JV)>) -> JV { JV::Obj(kvs.into_iter().map(|(k, v)| (k.to_string(), v)).collect()) }
+fn s_opt(d: &Option<Desc>) -> JV { d.as_ref().map(|d| JV::Str(d.value.clone())).unwrap_or(JV::Null) }
+fn st(s: &str) -> JV { JV::Str(s.to_string()) }
+
+fn kind_of(s: &SchemaG, n: &str) -> &'static str {
+    match s.get(n).map(|t| &t.kind) {
+        Some(Kind::Scalar { .. }) => "SCALAR", Some(Kind::Object { .. }) => "OBJECT", Some(Kind::Interface { .. }) => "INTERFACE",
+        Some(Kind::Union { .. }) => "UNION", Some(Kind::Enum { .. }) => "ENUM", Some(Kind::Input { .. }) => "INPUT_OBJECT", None => "?",
+    }
+}
+
+/// `...TypeRef` with `levels` further `ofType` selections below this one
+pub fn type_ref(s: &SchemaG, t: &Ty, levels: usize) -> JV {
+    let (kind, name, of): (&str, JV, Option<Ty>) = match t {
+        Ty::Named(n) => (kind_of(s, n), st(n), None),
+        Ty::NonNullNamed(n) => ("NON_NULL", JV::Null, Some(Ty::Named(n.clone()))),
+        Ty::List(inner) => ("LIST", JV::Null, Some((**inner).clone())),
+        Ty::NonNullList(inner) => ("NON_NULL", JV::Null, Some(Ty::List(inner.clone()))),
+    };
+    let mut kvs = vec![("kind", st(kind)), ("name", name)];
+    if levels > 0 { kvs.push(("ofType", of.map(|x| type_ref(s, &x, levels - 1)).unwrap_or(JV::Null))); }
+    o(kvs)
+}
+
+const REF_LEVELS: usize = 9;
+
+fn dep_fields(d: &Dep) -> Vec<(&'static str, JV)> {
+    vec![("isDeprecated", JV::Bool(d.is_some())), ("deprecationReason", match d { None => JV::Null, Some(None) => st("No longer supported"), Some(Some(r)) => st(r) })]
+}
+
+fn input_value(s: &SchemaG, v: &InputVal) -> JV {
+    let mut kvs = vec![("name", st(&v.name)), ("description", s_opt(&v.desc)), ("type", type_ref(s, &v.ty, REF_LEVELS)),
+        ("defaultValue", v.default.as_ref().map(|d| JV::Str(print_lit(d))).unwrap_or(JV::Null))];
+    kvs.extend(dep_fields(&v.dep));
+    o(kvs)
+}
+
+fn visible<'a, T>(xs: &'a [T], dep: impl Fn(&T) -> &Dep, include_deprecated: bool) -> Vec<&'a T> {
+    xs.iter().filter(|x| include_deprecated || dep(x).is_none()).collect()
+}
+
+/// objects (not interfaces) that implement `iface`
+pub fn possible_types(s: &SchemaG, t: &TypeDef) -> Option<Vec<String>> {
+    match &t.kind {
+        Kind::Union { members } => Some(members.clone()),
+        Kind::Interface { .. } => Some(s.types.iter().filter(|x| matches!(&x.kind, Kind::Object { implements, .. } if implements.contains(&t.name))).map(|x| x.name.clone()).collect()),
+        _ => None,
+    }
+}
+
+/// `...FullType`
+fn full_type(s: &SchemaG, t: &TypeDef) -> JV {
+    let named = |n: &String| type_ref(s, &Ty::Named(n.clone()), REF_LEVELS);
+    let (fields, interfaces) = match &t.kind {
+        Kind::Object { implements, fields } | Kind::Interface { implements, fields } => (
+            JV::Arr(visible(fields, |f| &f.dep, true).into_iter().map(|f| {
+                let mut kvs = vec![("name", st(&f.name)), ("description", s_opt(&f.desc)),
+                    ("args", JV::Arr(visible(&f.args, |a| &a.dep, true).into_iter().map(|a| input_value(s, a)).collect())), ("type", type_ref(s, &f.ty, REF_LEVELS))];
+                kvs.extend(dep_fields(&f.dep));
+                o(kvs)
+            }).collect()),
+            JV::Arr(implements.iter().map(named).collect()),
+        ),
+        _ => (JV::Null, JV::Null),
+    };
+    o(vec![
+        ("kind", st(kind_of(s, &t.name))), ("name", st(&t.name)), ("description", s_opt(&t.desc)),
+        ("specifiedByURL", match &t.kind { Kind::Scalar { specified_by: Some(u) } => st(u), _ => JV::Null }),
+        ("fields", fields),
+        ("inputFields", match &t.kind { Kind::Input { fields } => JV::Arr(visible(fields, |f| &f.dep, true).into_iter().map(|f| input_value(s, f)).collect()), _ => JV::Null }),
+        ("interfaces", interfaces),
+        ("enumValues", match &t.kind { Kind::Enum { values } => JV::Arr(values.iter().map(|v| { let mut kvs = vec![("name", st(&v.name)), ("description", s_opt(&v.desc))]; kvs.extend(dep_fields(&v.dep)); o(kvs) }).collect()), _ => JV::Null }),
+        ("possibleTypes", possible_types(s, t).map(|ns| JV::Arr(ns.iter().map(named).collect())).unwrap_or(JV::Null)),
+    ])
+}
+
+/// the response `data.__schema` of the standard introspection query
+pub fn expected_full(s: &SchemaG) -> JV {
+    let name_of = |n: &Option<String>| n.as_ref().map(|n| o(vec![("name", st(n))])).unwrap_or(JV::Null);
+    o(vec![
+        ("description", s_opt(&s.desc)),
+        ("queryType", o(vec![("name", st(&s.query))])),
+        ("mutationType", name_of(&s.mutation)),
+        ("subscriptionType", name_of(&s.subscription)),
+        ("types", JV::Arr(s.types.iter().map(|t| full_type(s, t)).collect())),
+        ("directives", JV::Arr(s.directives.iter().map(|d| o(vec![
+            ("name", st(&d.name)), ("description", s_opt(&d.desc)), ("isRepeatable", JV::Bool(d.repeatable)),
+            ("locations", JV::Arr(d.locations.iter().map(|l| st(l)).collect())),
+            ("args", JV::Arr(visible(&d.args, |a| &a.dep, true).into_iter().map(|a| input_value(s, a)).collect())),
+        ])).collect())),
+    ])
+}
+
+/// the response `data.__schema` of `FILTER_QUERY` (deprecated elements left out)
+pub fn expected_filtered(s: &SchemaG) -> JV {
+    let names = |xs: Vec<String>| JV::Arr(xs.into_iter().map(|n| o(vec![("name", JV::Str(n))])).collect());
+    o(vec![
+        ("types", JV::Arr(s.types.iter().map(|t| o(vec![
+            ("name", st(&t.name)),
+            ("fields", match &t.kind {
+                Kind::Object { fields, .. } | Kind::Interface { fields, .. } => JV::Arr(visible(fields, |f| &f.dep, false).into_iter().map(|f| o(vec![("name", st(&f.name)), ("args", names(visible(&f.args, |a| &a.dep, false).into_iter().map(|a| a.name.clone()).collect()))])).collect()),
+                _ => JV::Null }),
+            ("enumValues", match &t.kind { Kind::Enum { values } => names(visible(values, |v| &v.dep, false).into_iter().map(|v| v.name.clone()).collect()), _ => JV::Null }),
+            ("inputFields", match &t.kind { Kind::Input { fields } => names(visible(fields, |v| &v.dep, false).into_iter().map(|v| v.name.clone()).collect()), _ => JV::Null }),
+        ])).collect())),
+        ("directives", JV::Arr(s.directives.iter().map(|d| o(vec![("name", st(&d.name)), ("args", names(visible(&d.args, |a| &a.dep, false).into_iter().map(|a| a.name.clone()).collect()))])).collect())),
+    ])
+}
+
+/// graphql-js 16 `getIntrospectionQuery({descriptions, specifiedByUrl, directiveIsRepeatable, schemaDescription, inputValueDeprecation})`
+pub const FULL_QUERY: &str = r#"
+query IntrospectionQuery {
+  __schema {
+    description
+    queryType { name }
+    mutationType { name }
+    subscriptionType { name }
+    types { ...FullType }
+    directives { name description isRepeatable locations args(includeDeprecated: true) { ...InputValue } }
+  }
+}
+fragment FullType on __Type {
+  kind name description specifiedByURL
+  fields(includeDeprecated: true) { name description args(includeDeprecated: true) { ...InputValue } type { ...TypeRef } isDeprecated deprecationReason }
+  inputFields(includeDeprecated: true) { ...InputValue }
+  interfaces { ...TypeRef }
+  enumValues(includeDeprecated: true) { name description isDeprecated deprecationReason }
+  possibleTypes { ...TypeRef }
+}
+fragment InputValue on __InputValue { name description type { ...TypeRef } defaultValue isDeprecated deprecationReason }
+fragment TypeRef on __Type {
+  kind name ofType { kind name ofType { kind name ofType { kind name ofType { kind name ofType { kind name ofType { kind name ofType { kind name ofType { kind name ofType { kind name } } } } } } } } }
+}
+"#;
+
+/// deprecated elements are left out when `includeDeprecated` is false, null or not given
+pub const FILTER_QUERY: &str = r#"
+query($n: Boolean) { __schema {
+  types { name fields { name args(includeDeprecated: $n) { name } } enumValues(includeDeprecated: false) { name } inputFields { name } }
+  directives { name args(includeDeprecated: false) { name } }
+} }
+"#;
+
+// ───────────────────────── normalisation: exactly what the property allows ─────────────────────────
+
+fn strip_descriptions(v: &JV) -> JV {
+    match v {
+        JV::Obj(kvs) => JV::Obj(kvs.iter().map(|(k, x)| (k.clone(), if k == "description" { JV::Null } else { strip_descriptions(x) })).collect()),
+        JV::Arr(xs) => JV::Arr(xs.iter().map(strip_descriptions).collect()),
+        x => x.clone(),
+    }
+}
+
+fn name_of(v: &JV) -> String { match v { JV::Obj(kvs) => kvs.iter().find(|(k, _)| k == "name").map(|(_, n)| n.json_text()).unwrap_or_default(), _ => String::new() } }
+
+fn sort_by_name(v: &JV) -> JV { match v { JV::Arr(xs) => { let mut ys = xs.clone(); ys.sort_by_key(name_of); JV::Arr(ys) } x => x.clone() } }
+
+pub fn normalise(schema_data: &JV) -> JV {
+    let JV::Obj(kvs) = schema_data else { return schema_data.clone() };
+    JV::Obj(kvs.iter().map(|(k, v)| {
+        let nv = match (k.as_str(), v) {
+            ("types", JV::Arr(ts)) => {
+                let ts: Vec<JV> = ts.iter().map(|t| {
+                    let n = name_of(t);
+                    let n = n.trim_matches('"').to_string();
+                    let introspection = n.starts_with("__");
+                    let builtin = introspection || BUILTIN_SCALARS.contains(&n.as_str());
+                    let t = if builtin { strip_descriptions(t) } else { t.clone() };
+                    let JV::Obj(tk) = &t else { return t };
+                    JV::Obj(tk.iter().map(|(fk, fv)| (fk.clone(), match fk.as_str() {
+                        "possibleTypes" => sort_by_name(fv),
+                        "fields" if introspection => sort_by_name(fv),
+                        _ => fv.clone(),
+                    })).collect())
+                }).collect();
+                sort_by_name(&JV::Arr(ts))
+            }
+            ("directives", JV::Arr(ds)) => {
+                let ds: Vec<JV> = ds.iter().map(|d| { let n = name_of(d); if ["\"skip\"", "\"include\"", "\"deprecated\"", "\"specifiedBy\""].contains(&n.as_str()) { strip_descriptions(d) } else { d.clone() } }).collect();
+                sort_by_name(&JV::Arr(ds))
+            }
+            _ => v.clone(),
+        };
+        (k.clone(), nv)
+    }).collect())
+}
+
+/// first place where two JSON values differ: (path, left, right)
+fn first_diff(a: &JV, b: &JV, path: &mut Vec<String>) -> Option<(String, String, String)> {
+    match (a, b) {
+        (JV::Obj(x), JV::Obj(y)) => {
+            if x.len() != y.len() || x.iter().zip(y).any(|((k1, _), (k2, _))| k1 != k2) {
+                return Some((path.join("/"), format!("keys {:?}", x.iter().map(|k| &k.0).collect::<Vec<_>>()), format!("keys {:?}", y.iter().map(|k| &k.0).collect::<Vec<_>>())));
+            }
+            for ((k, v1), (_, v2)) in x.iter().zip(y) {
+                path.push(if k == "name" { k.clone() } else { k.clone() });
+                if let Some(d) = first_diff(v1, v2, path) { return Some(d); }
+                path.pop();
+            }
+            None
+        }
+        (JV::Arr(x), JV::Arr(y)) => {
+            if x.len() != y.len() {
+                return Some((path.join("/"), format!("{} items: {}", x.len(), x.iter().map(name_of).collect::<Vec<_>>().join(",")), format!("{} items: {}", y.len(), y.iter().map(name_of).collect::<Vec<_>>().join(","))));
+            }
+            for (i, (v1, v2)) in x.iter().zip(y).enumerate() {
+                let n = name_of(v1);
+                path.push(if n.is_empty() { i.to_string() } else { n });
+                if let Some(d) = first_diff(v1, v2, path) { return Some(d); }
+                path.pop();
+            }
+            None
+        }
+        (x, y) => if x == y { None } else { Some((path.join("/"), x.json_text(), y.json_text())) },
+    }
+}
+
+// ───────────────────────── running the real code ─────────────────────────
+
+pub struct Compiled { pub schema: apollo_compiler::validation::Valid<Schema> }
+
+fn run_query(c: &Compiled, query: &str, vars: &[(String, JV)]) -> Result<(Option<JV>, usize), String> {
+    let doc = ExecutableDocument::parse_and_validate(&c.schema, query, "q.graphql").map_err(|e| format!("query invalid: {}", e.errors))?;
+    let op = doc.operations.get(None).map_err(|_| "no operation".to_string())?;
+    apollo_compiler::introspection::check_max_depth(&doc, op).map_err(|e| format!("max depth: {}", e.message()))?;
+    let SJ::Object(raw) = JV::Obj(vars.to_vec()).to_sj() else { unreachable!() };
+    let coerced = apollo_compiler::request::coerce_variable_values(&c.schema, op, &raw).map_err(|e| format!("variables: {}", e.message()))?;
+    let imap = c.schema.implementers_map();
+    let resp = apollo_compiler::introspection::partial_execute(&c.schema, &imap, &doc, op, &coerced).map_err(|e| format!("request error: {}", e.message()))?;
+    Ok((resp.data.map(|m| JV::from_sj(&SJ::Object(m))), resp.errors.len()))
+}
+
+fn field<'j>(v: &'j JV, k: &str) -> Option<&'j JV> { match v { JV::Obj(kvs) => kvs.iter().find(|(kk, _)| kk == k).map(|x| &x.1), _ => None } }
+
+fn enc_ty(t: &Ty) -> String { let mut v = vec![]; t.enc(&mut v); toks(v) }
+
+fn chain_text(v: &JV) -> String {
+    let mut out = vec![];
+    let mut cur = Some(v);
+    while let Some(JV::Obj(_)) = cur {
+        let c = cur.unwrap();
+        let k = match field(c, "kind") { Some(JV::Str(s)) => s.clone(), _ => "?".into() };
+        let n = match field(c, "name") { Some(JV::Str(s)) => s.clone(), _ => "-".into() };
+        out.push(format!("{k}:{n}"));
+        cur = field(c, "ofType");
+    }
+    out.join(" ")
+}
+
+pub fn one(ctx: &mut Ctx, user: &SchemaG, label: &str) {
+    let sdl = user.sdl();
+    let input = sdl.replace('\n', " ");
+    let schema = match catch(|| Schema::parse_and_validate(&sdl, "s.graphql")) {
+        Ok(Ok(s)) => s,
+        Ok(Err(e)) => {
+            ctx.stat("generated_invalid");
+            if ctx.stats.get("generated_invalid").copied().unwrap_or(0) <= 3 { ctx.fail("generator-invalid", &input, &e.errors.to_string().replace('\n', " ")); }
+            return;
+        }
+        Err(p) => { ctx.fail("schema-panics", &input, &p); return; }
+    };
+    let c = Compiled { schema };
+    let full = complete(user);
+    ctx.stat(label);
+
+    // 1. the standard introspection query
+    match catch(|| run_query(&c, FULL_QUERY, &[])) {
+        Err(p) => ctx.fail("introspection-panics", &input, &p),
+        Ok(Err(e)) => ctx.fail("introspection-request-error", &input, &e),
+        Ok(Ok((data, nerr))) => {
+            if nerr > 0 { ctx.fail("introspection-errors", &input, &format!("{nerr} errors")); }
+            let got = data.as_ref().and_then(|d| field(d, "__schema")).cloned().unwrap_or(JV::Null);
+            let want = normalise(&expected_full(&full));
+            let gotn = normalise(&got);
+            if let Some((path, g, w)) = first_diff(&gotn, &want, &mut vec![]) {
+                let last = path.rsplit('/').next().unwrap_or("").to_string();
+                let key = match last.as_str() {
+                    "defaultValue" | "description" | "deprecationReason" | "isDeprecated" | "specifiedByURL" | "isRepeatable" | "kind" | "name" | "ofType" | "possibleTypes" | "interfaces" | "locations" | "types" | "directives" | "fields" | "args" | "enumValues" | "inputFields" => format!("introspection-{last}"),
+                    _ => "introspection-differs".to_string(),
+                };
+                ctx.fail(&key, &input, &format!("at {path}: partial_execute gives {g}, reference introspection gives {w}"));
+            } else {
+                ctx.nontrivial(&sdl);
+            }
+            // correspondence: type references, possible types
+            if let Some(JV::Arr(ts)) = field(&got, "types") {
+                for t in &full.types {
+                    if t.builtin { continue; }
+                    let Some(tj) = ts.iter().find(|x| name_of(x) == format!("\"{}\"", t.name)) else { continue };
+                    if let (Kind::Object { fields, .. } | Kind::Interface { fields, .. }, Some(JV::Arr(fj))) = (&t.kind, field(tj, "fields")) {
+                        for f in fields {
+                            if let Some(j) = fj.iter().find(|x| name_of(x) == format!("\"{}\"", f.name)) {
+                                let kind_name = kind_of(&full, inner_name(&f.ty));
+                                ctx.case("c24.typeref", &[enc_ty(&f.ty), format!("={kind_name}")], &chain_text(field(j, "type").unwrap_or(&JV::Null)));
+                                ctx.stat(&format!("typeref_depth_{}", chain_text(field(j, "type").unwrap_or(&JV::Null)).split(' ').count()));
+                            }
+                        }
+                    }
+                    if let Some(_) = possible_types(&full, t) {
+                        let mut got_names: Vec<String> = match field(tj, "possibleTypes") { Some(JV::Arr(xs)) => xs.iter().map(|x| name_of(x).trim_matches('"').to_string()).collect(), _ => vec!["<null>".into()] };
+                        got_names.sort();
+                        // (kind, name, members-or-none, all objects with their interfaces)
+                        let mut fields = vec![format!("={}", t.name), format!("={}", match &t.kind { Kind::Union { members } => format!("U {}", members.join(" ")), _ => "I".into() })];
+                        let objs: Vec<String> = full.types.iter().filter_map(|x| match &x.kind { Kind::Object { implements, .. } => Some(format!("{}:{}", x.name, implements.join(","))), _ => None }).collect();
+                        fields.push(format!("={}", objs.join(" ")));
+                        ctx.case("c24.possible", &fields, &got_names.join(" "));
+                    }
+                }
+            }
+        }
+    }
+
+    // 2. deprecation filtering (includeDeprecated false / null / absent)
+    for nvar in [Some(JV::Bool(false)), Some(JV::Null), None] {
+        let vars: Vec<(String, JV)> = nvar.clone().map(|v| vec![("n".to_string(), v)]).unwrap_or_default();
+        match catch(|| run_query(&c, FILTER_QUERY, &vars)) {
+            Err(p) => ctx.fail("introspection-panics", &input, &p),
+            Ok(Err(e)) => ctx.fail("introspection-request-error", &input, &e),
+            Ok(Ok((data, nerr))) => {
+                if nerr > 0 { ctx.fail("introspection-errors", &input, &format!("{nerr} errors (filter query)")); }
+                let got = normalise(&data.as_ref().and_then(|d| field(d, "__schema")).cloned().unwrap_or(JV::Null));
+                let want = normalise(&expected_filtered(&full));
+                if let Some((path, g, w)) = first_diff(&got, &want, &mut vec![]) {
+                    ctx.fail("introspection-deprecation-filter", &input, &format!("includeDeprecated={:?} at {path}: partial_execute gives {g}, reference gives {w}", nvar.as_ref().map(|v| v.json_text())));
+                }
+                if nvar.is_none() {
+                    if let Some(JV::Arr(ts)) = field(&got, "types") {
+                        for t in &full.types {
+                            if t.builtin { continue; }
+                            let Some(tj) = ts.iter().find(|x| name_of(x) == format!("\"{}\"", t.name)) else { continue };
+                            let (all, key): (Vec<(String, bool)>, &str) = match &t.kind {
+                                Kind::Object { fields, .. } | Kind::Interface { fields, .. } => (fields.iter().map(|f| (f.name.clone(), f.dep.is_some())).collect(), "fields"),
+                                Kind::Enum { values } => (values.iter().map(|f| (f.name.clone(), f.dep.is_some())).collect(), "enumValues"),
+                                Kind::Input { fields } => (fields.iter().map(|f| (f.name.clone(), f.dep.is_some())).collect(), "inputFields"),
+                                _ => continue,
+                            };
+                            let got_names: Vec<String> = match field(tj, key) { Some(JV::Arr(xs)) => xs.iter().map(|x| name_of(x).trim_matches('"').to_string()).collect(), _ => vec!["<null>".into()] };
+                            let enc_all = all.iter().map(|(n, d)| format!("{}{}", if *d { "-" } else { "+" }, n)).collect::<Vec<_>>().join(" ");
+                            ctx.case("c24.filter", &[format!("={enc_all}"), "=false".into()], &got_names.join(" "));
+                        }
+                    }
+                }
+            }
+        }
+    }
+
+    // 3. concrete root fields next to the introspection fields are skipped without error
+    let root = full.get(&full.query).cloned();
+    if let Some(TypeDef { kind: Kind::Object { fields, .. }, .. }) = root {
+        let leaf: Vec<&Field> = fields.iter().filter(|f| f.args.iter().all(|a| !a.ty.is_non_null() || a.default.is_some()) && matches!(kind_of(&full, inner_name(&f.ty)), "SCALAR" | "ENUM")).collect();
+        if let Some(f) = leaf.first() {
+            let q = format!("{{ a: __typename {0} __schema {{ queryType {{ name }} }} ...F b: {0} }} fragment F on {1} {{ c: {0} t: __type(name: \"{1}\") {{ kind name }} u: __type(name: \"NoSuchType\") {{ name }} }}", f.name, full.query);
+            match catch(|| run_query(&c, &q, &[])) {
+                Err(p) => ctx.fail("introspection-panics", &input, &p),
+                Ok(Err(e)) => ctx.fail("introspection-request-error", &format!("{input} || {q}"), &e),
+                Ok(Ok((data, nerr))) => {
+                    let want = o(vec![("a", st(&full.query)), ("__schema", o(vec![("queryType", o(vec![("name", st(&full.query))]))])), ("t", o(vec![("kind", st("OBJECT")), ("name", st(&full.query))])), ("u", JV::Null)]);
+                    let got = data.unwrap_or(JV::Null);
+                    if nerr != 0 || got != want {
+                        ctx.fail("introspection-concrete-roots", &format!("{input} || {q}"), &format!("{nerr} errors, data {}; expected no error and {}", got.json_text(), want.json_text()));
+                    }
+                }
+            }
+            let q2 = format!("{{ a: __typename {0} b: {0} ...F z: __typename }} fragment F on {1} {{ c: {0} }}", f.name, full.query);
+            match catch(|| run_query(&c, &q2, &[])) {
+                Err(p) => ctx.fail("introspection-panics", &input, &p),
+                Ok(Err(e)) => ctx.fail("introspection-request-error", &format!("{input} || {q2}"), &e),
+                Ok(Ok((data, nerr))) => {
+                    let keys: Vec<String> = match &data { Some(JV::Obj(kvs)) => kvs.iter().map(|(k, _)| k.clone()).collect(), _ => vec!["<null>".into()] };
+                    let out = format!("errors={nerr} keys={}", keys.join(","));
+                    if out != "errors=0 keys=a,z" { ctx.fail("introspection-concrete-roots", &format!("{input} || {q2}"), &format!("{out}; expected errors=0 keys=a,z")); }
+                    ctx.case("c24.skiproots", &[format!("={}", f.name)], &out);
+                }
+            }
+        }
+    }
+}
+
+// ───────────────────────── generator of valid schemas ─────────────────────────
+
+fn gen_desc(rng: &mut Rng) -> Option<Desc> {
+    if !rng.chance(2, 5) { return None; }
+    let words = ["a thing", "The \"quoted\" one", "back\\slash", "naïve café ☃", "tab\there", "x", "# not a comment", "ends with quote\"", "{braces} [brackets]"];
+    if rng.chance(1, 3) {
+        let n = 1 + rng.below(3);
+        let lines: Vec<String> = (0..n).map(|_| rng.pick(&["first line", "second \"line\"", "with \\ backslash", "naïve ☃", "- item", "x"]).to_string()).collect();
+        Some(Desc { value: lines.join("\n"), block: true })
+    } else {
+        let mut v = rng.pick(&words).to_string();
+        if rng.chance(1, 6) { v.push_str("\nsecond line"); }
+        Some(Desc { value: v, block: false })
+    }
+}
+
+fn gen_dep(rng: &mut Rng, allowed: bool) -> Dep {
+    if !allowed || !rng.chance(1, 4) { return None; }
+    match rng.below(3) { 0 => Some(None), 1 => Some(Some("use \"other\" instead".into())), _ => Some(Some(rng.pick(&["old", "", "naïve ☃", "No longer supported"]).to_string())) }
+}
+
+struct Names { scalars: Vec<String>, enums: Vec<(String, Vec<String>)>, inputs: Vec<String>, objects: Vec<String>, interfaces: Vec<String>, unions: Vec<String> }
+
+fn wrap(rng: &mut Rng, base: &str, depth: usize) -> Ty {
+    let mut t = if rng.chance(1, 2) { Ty::NonNullNamed(base.into()) } else { Ty::Named(base.into()) };
+    for _ in 0..rng.below(depth + 1) { t = if rng.chance(1, 2) { Ty::NonNullList(Box::new(t)) } else { Ty::List(Box::new(t)) }; }
+    t
+}
+
+fn gen_input_type(rng: &mut Rng, n: &Names, max_input: usize) -> Ty {
+    let mut bases: Vec<String> = vec!["Int".into(), "Float".into(), "String".into(), "Boolean".into(), "ID".into()];
+    bases.extend(n.scalars.iter().cloned());
+    bases.extend(n.enums.iter().map(|e| e.0.clone()));
+    bases.extend(n.inputs.iter().take(max_input).cloned());
+    let b = rng.pick(&bases).clone();
+    let depth = if rng.chance(1, 3) { 2 } else { 0 };
+    wrap(rng, &b, depth)
+}
+
+/// a default value written in the canonical form the reference prints (lists bracketed, input objects with every
+/// defaulted/required field in definition order, floats that are not integral)
+fn gen_default(rng: &mut Rng, n: &Names, inputs: &[(String, Vec<InputVal>)], t: &Ty, depth: usize) -> Lit {
+    if !t.is_non_null() && rng.chance(1, 6) { return Lit::Null; }
+    match t {
+        Ty::List(inner) | Ty::NonNullList(inner) => { let k = if depth > 2 { 0 } else { rng.below(3) }; Lit::List((0..k).map(|_| gen_default(rng, n, inputs, inner, depth + 1)).collect()) }
+        Ty::Named(b) | Ty::NonNullNamed(b) => match b.as_str() {
+            "Int" => Lit::Int(*rng.pick(&[0, 1, -7, 2147483647, -2147483648])),
+            "Float" => if rng.chance(1, 2) { Lit::Float(rng.pick(&["1.5", "-0.25", "2.75", "1234.5"]).to_string()) } else { Lit::Int(*rng.pick(&[0, 3, -2])) },
+            "String" => Lit::Str(rng.pick(&["", "abc", "with \"quotes\"", "back\\slash", "line\nbreak", "naïve ☃", "cr\r!"]).to_string()),
+            "Boolean" => Lit::Bool(rng.chance(1, 2)),
+            "ID" => if rng.chance(1, 2) { Lit::Str(rng.pick(&["abc", "x-1"]).to_string()) } else { Lit::Int(*rng.pick(&[0, 12])) },
+            _ => {
+                if let Some((_, vs)) = n.enums.iter().find(|(k, _)| k == b) { return Lit::Enum(rng.pick(vs).clone()); }
+                if let Some((_, fields)) = inputs.iter().find(|(k, _)| k == b) {
+                    let mut kvs = vec![];
+                    for f in fields {
+                        let needed = f.default.is_some() || f.ty.is_non_null();
+                        if needed { kvs.push((f.name.clone(), match &f.default { Some(d) if rng.chance(1, 2) => d.clone(), _ => gen_default(rng, n, inputs, &f.ty, depth + 1) })); }
+                        else if rng.chance(1, 2) { kvs.push((f.name.clone(), gen_default(rng, n, inputs, &f.ty, depth + 1))); }
+                    }
+                    return Lit::Obj(kvs);
+                }
+                // custom scalar
+                rng.pick(&[Lit::Int(3), Lit::Str("s".into()), Lit::Bool(true), Lit::Float("1.5".into())]).clone()
+            }
+        },
+    }
+}
+
+fn gen_args(rng: &mut Rng, n: &Names, inputs: &[(String, Vec<InputVal>)]) -> Vec<InputVal> {
+    let k = if rng.chance(1, 2) { 0 } else { 1 + rng.below(3) };
+    (0..k).map(|i| {
+        let t = gen_input_type(rng, n, inputs.len());
+        let default = if rng.chance(1, 2) { Some(gen_default(rng, n, inputs, &t, 0)) } else { None };
+        let optional = !t.is_non_null() || default.is_some();
+        InputVal { name: format!("a{i}"), desc: gen_desc(rng), ty: t, default, dep: gen_dep(rng, optional) }
+    }).collect()
+}
+
+fn gen_fields(rng: &mut Rng, n: &Names, inputs: &[(String, Vec<InputVal>)], prefix: &str, k: usize) -> Vec<Field> {
+    let mut out_bases: Vec<String> = vec!["Int".into(), "Float".into(), "String".into(), "Boolean".into(), "ID".into()];
+    out_bases.extend(n.scalars.iter().cloned());
+    out_bases.extend(n.enums.iter().map(|e| e.0.clone()));
+    out_bases.extend(n.objects.iter().cloned());
+    out_bases.extend(n.interfaces.iter().cloned());
+    out_bases.extend(n.unions.iter().cloned());
+    (0..k).map(|i| {
+        let b = rng.pick(&out_bases).clone();
+        let depth = if rng.chance(1, 3) { 3 } else { 0 };
+        Field { name: format!("{prefix}{i}"), desc: gen_desc(rng), args: gen_args(rng, n, inputs), ty: wrap(rng, &b, depth), dep: gen_dep(rng, true) }
+    }).collect()
+}
+
+pub fn gen_schema(rng: &mut Rng) -> SchemaG {
+    let n_obj = 1 + rng.below(3);
+    let n_iface = rng.below(3);
+    let n_input = rng.below(3);
+    let custom_roots = rng.chance(1, 3);
+    let query = if custom_roots { "RootQ".to_string() } else { "Query".to_string() };
+    let mutation = if rng.chance(1, 3) { Some(if custom_roots { "RootM".to_string() } else { "Mutation".to_string() }) } else { None };
+    let subscription = if rng.chance(1, 4) { Some(if custom_roots { "RootS".to_string() } else { "Subscription".to_string() }) } else { None };
+    let mut objects: Vec<String> = (0..n_obj).map(|i| format!("Obj{i}")).collect();
+    objects.push(query.clone());
+    objects.extend(mutation.iter().cloned());
+    objects.extend(subscription.iter().cloned());
+    let names = Names {
+        scalars: if rng.chance(2, 3) { vec!["Date".into(), "Url".into()] } else { vec![] },
+        enums: if rng.chance(2, 3) { vec![("Color".into(), vec!["RED".into(), "GREEN".into(), "BLUE".into()]), ("Unit".into(), vec!["ONE".into()])] } else { vec![] },
+        inputs: (0..n_input).map(|i| format!("In{i}")).collect(),
+        objects: objects.clone(),
+        interfaces: (0..n_iface).map(|i| format!("Face{i}")).collect(),
+        unions: if rng.chance(1, 2) { vec!["Either".into()] } else { vec![] },
+    };
+    // input objects (fields only refer to earlier input objects: no cycles to think about)
+    let mut inputs: Vec<(String, Vec<InputVal>)> = vec![];
+    for i in 0..n_input {
+        let k = 1 + rng.below(4);
+        let fields = (0..k).map(|j| {
+            let t = gen_input_type(rng, &names, i);
+            let default = if rng.chance(1, 2) { Some(gen_default(rng, &names, &inputs, &t, 0)) } else { None };
+            let optional = !t.is_non_null() || default.is_some();
+            InputVal { name: format!("f{j}"), desc: gen_desc(rng), ty: t, default, dep: gen_dep(rng, optional) }
+        }).collect();
+        inputs.push((format!("In{i}"), fields));
+    }
+    let mut types: Vec<TypeDef> = vec![];
+    let user = |name: &str, desc: Option<Desc>, kind: Kind, ext_split: usize| TypeDef { name: name.into(), desc, kind, builtin: false, ext_split };
+    for (i, s) in names.scalars.iter().enumerate() {
+        let d = gen_desc(rng);
+        types.push(user(s, d, Kind::Scalar { specified_by: if i == 0 || rng.chance(1, 2) { Some("https://example.com/spec?x=\"1\"".into()) } else { None } }, 0));
+    }
+    for (e, vs) in &names.enums {
+        let values = vs.iter().enumerate().map(|(i, v)| EnumVal { name: v.clone(), desc: gen_desc(rng), dep: gen_dep(rng, i > 0) }).collect();
+        let d = gen_desc(rng);
+        let sp = rng.below(2);
+        types.push(user(e, d, Kind::Enum { values }, sp));
+    }
+    for (nm, fields) in &inputs { let d = gen_desc(rng); let sp = rng.below(2); types.push(user(nm, d, Kind::Input { fields: fields.clone() }, sp)); }
+    // interfaces: Face1 implements Face0 (and repeats its fields), Face2 is independent
+    let mut iface_fields: Vec<Vec<Field>> = vec![];
+    for i in 0..n_iface {
+        let kf = 1 + rng.below(2);
+        let mut fields = gen_fields(rng, &names, &inputs, &format!("i{i}_"), kf);
+        let mut implements = vec![];
+        if i == 1 { let mut inherited = iface_fields[0].clone(); inherited.extend(fields); fields = inherited; implements.push("Face0".to_string()); }
+        iface_fields.push(fields.clone());
+        let d = gen_desc(rng);
+        types.push(user(&format!("Face{i}"), d, Kind::Interface { implements, fields }, 0));
+    }
+    for (oi, oname) in objects.iter().enumerate() {
+        let mut implements: Vec<String> = vec![];
+        let mut fields: Vec<Field> = vec![];
+        if n_iface > 0 && rng.chance(1, 2) && oi < n_obj {
+            let i = rng.below(n_iface);
+            if i == 1 { implements.push("Face1".into()); implements.push("Face0".into()); } else { implements.push(format!("Face{i}")); }
+            fields.extend(iface_fields[i].clone());
+            if n_iface > 2 && i != 2 && rng.chance(1, 3) { implements.push("Face2".into()); fields.extend(iface_fields[2].clone()); }
+        }
+        if *oname == query { fields.push(Field { name: "ping".into(), desc: None, args: vec![], ty: Ty::Named("Int".into()), dep: None }); }
+        let kf = 1 + rng.below(3);
+        let extra = gen_fields(rng, &names, &inputs, &format!("o{oi}_"), kf);
+        fields.extend(extra);
+        let sp = if implements.is_empty() { rng.below(2) } else { 0 };
+        let d = gen_desc(rng);
+        types.push(user(oname, d, Kind::Object { implements, fields }, sp));
+    }
+    if !names.unions.is_empty() {
+        let k = 1 + rng.below(n_obj);
+        let d = gen_desc(rng);
+        types.push(user("Either", d, Kind::Union { members: objects[..k].to_vec() }, 0));
+    }
+    let mut directives = vec![];
+    if rng.chance(1, 2) {
+        let all = builtin_types().pop().map(|t| match t.kind { Kind::Enum { values } => values.into_iter().map(|v| v.name).collect::<Vec<_>>(), _ => vec![] }).unwrap_or_default();
+        for i in 0..1 + rng.below(2) {
+            let mut locs: Vec<String> = all.iter().filter(|_| rng.chance(1, 3)).cloned().collect();
+            if locs.is_empty() { locs.push(rng.pick(&all).clone()); }
+            let d = gen_desc(rng);
+            directives.push(DirectiveDef { name: format!("dir{i}"), desc: d, args: gen_args(rng, &names, &inputs), repeatable: rng.chance(1, 2), locations: locs, builtin: false });
+        }
+    }
+    let explicit = custom_roots || rng.chance(1, 3);
+    SchemaG { desc: if explicit && rng.chance(1, 2) { gen_desc(rng) } else { None }, query, mutation, subscription, explicit, types, directives }
+}
+
+/// every wrapping of a named type up to three list layers, as the types of the fields of one object
+fn typeref_schema() -> SchemaG {
+    let mut tys: Vec<Ty> = vec![Ty::Named("Int".into()), Ty::NonNullNamed("Int".into())];
+    let mut frontier = tys.clone();
+    for _ in 0..3 {
+        let mut next = vec![];
+        for t in &frontier { next.push(Ty::List(Box::new(t.clone()))); next.push(Ty::NonNullList(Box::new(t.clone()))); }
+        tys.extend(next.iter().cloned());
+        frontier = next;
+    }
+    let mut fields: Vec<Field> = tys.iter().enumerate().map(|(i, t)| Field { name: format!("t{i}"), desc: None, args: vec![], ty: t.clone(), dep: None }).collect();
+    // one deeper than the query's ofType selections reach: the chain is cut, not an error
+    let mut deep = Ty::NonNullNamed("Q".into());
+    for _ in 0..5 { deep = Ty::NonNullList(Box::new(deep)); }
+    fields.push(Field { name: "deep".into(), desc: None, args: vec![], ty: deep, dep: None });
+    fields.push(Field { name: "ping".into(), desc: None, args: vec![], ty: Ty::Named("Int".into()), dep: None });
+    SchemaG { desc: None, query: "Q".into(), mutation: None, subscription: None, explicit: true, directives: vec![],
+        types: vec![TypeDef { name: "Q".into(), desc: None, kind: Kind::Object { implements: vec![], fields }, builtin: false, ext_split: 0 }] }
+}
+
+/// default values that are not written in the form the reference prints: the reference prints the *coerced value*
+/// (graphql-js `print(astFromValue(defaultValue, type))`), apollo prints the literal as written
+fn noncanonical_witnesses(ctx: &mut Ctx) {
+    let sdl = "input In { x: Int, y: Int, z: Int = 5 }\ntype Query { ping: Int f(a: Float = 1.0, b: [Int] = 1, c: In = {y: 2, x: 1}, d: String = \"\"\"block\"\"\", e: ID = 12, t: String = \"tab\t!\", k: Float = 1.5): Int }\n";
+    let want = [("a", "1", "default-value-printed-as-written"), ("b", "[1]", "default-value-printed-as-written"), ("c", "{x: 1, y: 2, z: 5}", "default-value-printed-as-written"),
+        ("d", "\"block\"", "default-value-printed-as-written"), ("e", "12", "default-value-printed-as-written"), ("t", "\"tab\\t!\"", "default-value-tab-not-escaped"), ("k", "1.5", "default-value-printed-as-written")];
+    let schema = match Schema::parse_and_validate(sdl, "s.graphql") { Ok(s) => s, Err(e) => { ctx.fail("generator-invalid", sdl, &e.errors.to_string()); return; } };
+    let c = Compiled { schema };
+    let q = "{ __type(name: \"Query\") { fields { name args { name defaultValue } } } }";
+    match catch(|| run_query(&c, q, &[])) {
+        Ok(Ok((Some(data), 0))) => {
+            let args = field(&data, "__type").and_then(|t| field(t, "fields")).and_then(|f| match f { JV::Arr(xs) => xs.iter().find(|x| name_of(x) == "\"f\""), _ => None }).and_then(|f| field(f, "args")).cloned().unwrap_or(JV::Null);
+            for (name, expected, key) in want {
+                let got = match &args { JV::Arr(xs) => xs.iter().find(|x| name_of(x) == format!("\"{name}\"")).and_then(|x| field(x, "defaultValue")).cloned().unwrap_or(JV::Null), _ => JV::Null };
+                if got != JV::Str(expected.to_string()) {
+                    ctx.fail(key, &format!("{} || argument {name}", sdl.replace('\n', " ")), &format!("defaultValue is {}, the reference prints {}", got.json_text(), JV::Str(expected.to_string()).json_text()));
+                }
+            }
+        }
+        other => ctx.fail("introspection-request-error", sdl, &format!("{:?}", other.map(|r| r.map(|(d, n)| (d.map(|x| x.json_text()), n))))),
+    }
+}
+
+pub fn run(ctx: &mut Ctx) {
+    noncanonical_witnesses(ctx);
+    one(ctx, &typeref_schema(), "fixed");
+    let n = if ctx.thorough { 6000 } else { 500 };
+    for _ in 0..n {
+        let s = gen_schema(&mut ctx.rng);
+        one(ctx, &s, "random");
+    }
+}
